@@ -9,11 +9,11 @@ package hsim
 // decoder on the same bytes.
 
 import (
-	"os"
 	"errors"
 	"fmt"
 	"io"
 	"math"
+	"os"
 	"reflect"
 	"runtime"
 	"strings"
